@@ -138,7 +138,7 @@ def t_update(E):
             E.eq(w, E.I.binop("Sub", E.method(new, "get_score"), E.method(old, "get_score"))))
     E.prove("C05.Distribution.edit_update.new_score", E.eq(E.method(new, "get_score"), lp(E, d, newval, a1)))
     # backward constraint: previous value exactly where overwritten
-    bc = bwd.fields["constraint"]
+    bc = fld(E, bwd, "constraint")
     bv = E.method(bc, "get_value")
     b_present, b_val = _obs_value(E, bv)
     E.prove("C05.Distribution.edit_update.bwd_holds_previous_value_iff_overwritten",
@@ -193,7 +193,7 @@ def t_regenerate(E):
     E.prove("C07.Distribution.edit_regenerate.args", E.eq(E.method(new, "get_args"), a1))
     E.prove("C07.Distribution.edit_regenerate.empty_selection_unchanged_args_is_identity",
             E.Implies(z3.And(z3.Not(selected), T.d_nc_all(ad.t)), E.And(E.eq(new, old), E.eq(w, 0.0))))
-    bv = E.method(bwd.fields["constraint"], "get_value")
+    bv = E.method(fld(E, bwd, "constraint"), "get_value")
     b_present, b_val = _obs_value(E, bv)
     E.prove("C06.Distribution.edit_regenerate.bwd_holds_old_value_iff_redrawn",
             E.And(b_present == selected, E.Implies(selected, E.eq(b_val, v0))))
